@@ -148,23 +148,23 @@ Proof.
 Qed.
 
 (* ------------------------------------------------------------------ the oracle accepts what an allocation-like request observes *)
-Lemma spec_alloc_null c throwing n content before after_ok fd s' cs :
+Lemma spec_alloc_null w c throwing n content before after_ok fd s' cs :
   calls_ok c n cs = true -> (any_failed cs = true \/ too_big c n = true) -> balanced cs = true -> total s' = before ->
-  spec_alloc c throwing n content before after_ok fd (snd (obs_of_alloc c throwing (ANull, s', cs) fd)) = true.
+  spec_alloc w c throwing n content before after_ok fd (snd (obs_of_alloc c throwing (ANull, s', cs) fd)) = true.
 Proof.
   intros Hc Hf Hb Ht. unfold spec_alloc, obs_of_alloc, mk_oobs. cbn [snd o_rep o_calls o_kind o_total o_dig].
   assert (Hf' : any_failed cs || too_big c n = true) by (apply orb_true_iff; exact Hf).
-  rewrite Hc, Hf', Hb, Ht, !N.eqb_refl, list_eqb_refl. destruct throwing; reflexivity.
+  rewrite Hc, Hf', Hb, Ht, !N.eqb_refl, list_eqb_refl, !orb_true_r. destruct throwing; reflexivity.
 Qed.
 
-Lemma spec_alloc_block c throwing n content before after_ok fd s' cs b :
+Lemma spec_alloc_block w c throwing n content before after_ok fd s' cs b :
   calls_ok c n cs = true -> any_failed cs = false -> n < W -> block_layout_ok c b -> b_size b = n -> b_data b = content tt ->
   total s' = after_ok ->
-  spec_alloc c throwing n content before after_ok fd (snd (obs_of_alloc c throwing (ABlock b, s', cs) fd)) = true.
+  spec_alloc w c throwing n content before after_ok fd (snd (obs_of_alloc c throwing (ABlock b, s', cs) fd)) = true.
 Proof.
   intros Hc Hf Hn (Hreq & Hlay) Hsz Hd Ht. unfold spec_alloc, obs_of_alloc, mk_oobs, layout_ok.
-  cbn [snd o_rep o_calls o_kind o_total o_dig o_nk o_nv o_off o_req o_amod].
-  rewrite Hc, Hf, Ht, Hd, !N.eqb_refl, list_eqb_refl. apply N.ltb_lt in Hn. rewrite Hn.
+  cbn [snd o_rep o_calls o_kind o_total o_dig o_nk o_nv o_off o_req o_amod o_ovl].
+  rewrite Hc, Hf, Ht, Hd, !N.eqb_refl, list_eqb_refl, orb_true_r. apply N.ltb_lt in Hn. rewrite Hn.
   change (K_PTR =? K_PTR) with true. cbn [negb andb].
   destruct (b_sep b).
   - rewrite Hsz in Hlay. replace (0 + n + G c <=? b_req b) with true by (symmetry; apply N.leb_le; lia).
@@ -175,18 +175,18 @@ Proof.
     rewrite H2. reflexivity.
 Qed.
 
-Definition fresh_res (c : cfg) (throwing : bool) (l : live) (idx fam n : N) (content : unit -> list N) (ob : oobs) : option live :=
-  if spec_alloc c throwing n content (count l) (count l + 1) [] ob
+Definition fresh_res (w : bool) (c : cfg) (throwing : bool) (l : live) (idx fam n : N) (content : unit -> list N) (ob : oobs) : option live :=
+  if spec_alloc w c throwing n content (count l) (count l + 1) [] ob
   then Some (if o_kind ob =? K_PTR then (idx, fam, content tt) :: l else l) else None.
 
 Lemma kind_null c throwing s' cs fd : o_kind (snd (obs_of_alloc c throwing (ANull, s', cs) fd)) =? K_PTR = false.
 Proof. destruct throwing; reflexivity. Qed.
 
 (* a request for a fresh block: invariant kept, oracle satisfied, abstract live set follows *)
-Lemma fresh_ok c throwing s idx fam n content r :
+Lemma fresh_ok w c throwing s idx fam n content r :
   inv c idx s -> n < W -> alloc_post c s idx fam n (content tt) r -> N.of_nat (length (content tt)) = n ->
   inv c (idx + 1) (fst (obs_of_alloc c throwing r [])) /\
-  fresh_res c throwing (liveof s) idx fam n content (snd (obs_of_alloc c throwing r [])) = Some (liveof (fst (obs_of_alloc c throwing r []))).
+  fresh_res w c throwing (liveof s) idx fam n content (snd (obs_of_alloc c throwing r [])) = Some (liveof (fst (obs_of_alloc c throwing r []))).
 Proof.
   intros H Hn Hp Hlen. destruct r as [[a s'] cs]. unfold alloc_post in Hp. destruct Hp as (Hco & Hcalls & Herr & Hp).
   unfold fresh_res. destruct a as [| |b].
@@ -288,10 +288,10 @@ Proof.
   - rewrite realloc_data_nil in H4. exact H4.
 Qed.
 
-Lemma realloc_ok c s idx b0 n r :
+Lemma realloc_ok w c s idx b0 n r :
   inv c idx s -> n < W -> In b0 (s_blocks s) -> realloc_post c s idx (Some b0) n r ->
   inv c (idx + 1) (fst (obs_of_alloc c false r (digest (b_data b0)))) /\
-  spec_alloc c false n (fun _ => realloc_data (b_data b0) n) (count (liveof s)) (count (liveof s)) (digest (b_data b0))
+  spec_alloc w c false n (fun _ => realloc_data (b_data b0) n) (count (liveof s)) (count (liveof s)) (digest (b_data b0))
              (snd (obs_of_alloc c false r (digest (b_data b0)))) = true /\
   liveof (fst (obs_of_alloc c false r (digest (b_data b0)))) =
     (if o_kind (snd (obs_of_alloc c false r (digest (b_data b0)))) =? K_PTR
@@ -396,30 +396,30 @@ Qed.
 Lemma l_find_live i s : l_find i (liveof s) = option_map (fun b => (b_fam b, b_data b)) (find_block i (s_blocks s)).
 Proof. apply l_find_proj. Qed.
 
-Lemma step_ok c f s idx o : valid_cfg c = true -> valid_op o = true -> inv c idx s ->
+Lemma step_ok w c f s idx o : valid_cfg c = true -> valid_op o = true -> inv c idx s ->
   inv c (idx + 1) (fst (step fixed c f s idx o)) /\
-  spec_step c (liveof s) idx o (snd (step fixed c f s idx o)) = Some (liveof (fst (step fixed c f s idx o))).
+  spec_step w c (liveof s) idx o (snd (step fixed c f s idx o)) = Some (liveof (fst (step fixed c f s idx o))).
 Proof.
   intros Hc Hv H. destruct o as [n|n|num size|[i|] n|str|str k|arr throwing n|i|i off bytes]; cbn [valid_op] in Hv.
   - (* malloc *) apply ltb_W in Hv. cbn [step].
-    change (spec_step c (liveof s) idx (OMalloc n)) with (fresh_res c false (liveof s) idx 0 n (fun _ => repeat FILL (N.to_nat n))).
+    change (spec_step w c (liveof s) idx (OMalloc n)) with (fresh_res w c false (liveof s) idx 0 n (fun _ => repeat FILL (N.to_nat n))).
     apply fresh_ok; try assumption.
     + apply (alloc_mem_post c f s idx 0 true n (fun _ => repeat FILL (N.to_nat n))); assumption.
     + rewrite repeat_length. lia.
   - (* detector-level allocMemory *) apply ltb_W in Hv. cbn [step].
-    change (spec_step c (liveof s) idx (ODetAlloc n)) with (fresh_res c false (liveof s) idx 0 n (fun _ => repeat FILL (N.to_nat n))).
+    change (spec_step w c (liveof s) idx (ODetAlloc n)) with (fresh_res w c false (liveof s) idx 0 n (fun _ => repeat FILL (N.to_nat n))).
     apply fresh_ok; try assumption.
     + apply (alloc_mem_post c f s idx 0 false n (fun _ => repeat FILL (N.to_nat n))); assumption.
     + rewrite repeat_length. lia.
   - (* calloc *) cbn [step].
-    change (spec_step c (liveof s) idx (OCalloc num size))
-      with (fresh_res c false (liveof s) idx 0 (num * size) (fun _ => repeat 0 (N.to_nat (num * size)))).
+    change (spec_step w c (liveof s) idx (OCalloc num size))
+      with (fresh_res w c false (liveof s) idx 0 (num * size) (fun _ => repeat 0 (N.to_nat (num * size)))).
     unfold calloc_mem. cbn [v_calloc fixed andb].
     destruct (negb (size =? 0) && ((W - 1) / size <? num)) eqn:Ho.
     + apply calloc_overflow in Ho. cbn [obs_of_alloc fst snd]. split.
       * apply (inv_weaken c idx (idx + 1) s H). lia.
       * unfold fresh_res.
-        pose proof (spec_alloc_null c false (num * size) (fun _ => repeat 0 (N.to_nat (num * size))) (count (liveof s)) (count (liveof s) + 1) [] s []) as Hs.
+        pose proof (spec_alloc_null w c false (num * size) (fun _ => repeat 0 (N.to_nat (num * size))) (count (liveof s)) (count (liveof s) + 1) [] s []) as Hs.
         cbn [obs_of_alloc snd] in Hs. rewrite Hs; try reflexivity.
         -- right. unfold too_big. apply N.leb_le. lia.
         -- apply (inv_total c idx s H).
@@ -433,21 +433,21 @@ Proof.
     + apply find_block_some in Hfind. destruct Hfind as [Hin Hid].
       destruct (b_fam b0) as [|p] eqn:Hfam.
       * cbn [N.eqb]. change (realloc_mem fixed) with (realloc_new fixed).
-        destruct (realloc_ok c s idx b0 n (realloc_new fixed c f s idx (Some b0) n) H Hv Hin (realloc_new_post c f s idx (Some b0) n Hc Hv))
+        destruct (realloc_ok w c s idx b0 n (realloc_new fixed c f s idx (Some b0) n) H Hv Hin (realloc_new_post c f s idx (Some b0) n Hc Hv))
           as (H1 & H2 & H3).
         split; [exact H1|]. rewrite H2, H3, Hid. reflexivity.
       * cbn [N.eqb fst snd]. split; [apply (inv_weaken c idx (idx + 1) s H); lia|]. rewrite (skip_ok c idx s H). reflexivity.
     + cbn [fst snd]. split; [apply (inv_weaken c idx (idx + 1) s H); lia|]. rewrite (skip_ok c idx s H). reflexivity.
   - (* realloc(NULL, n) *) apply ltb_W in Hv. cbn [step].
-    change (spec_step c (liveof s) idx (ORealloc None n)) with (fresh_res c false (liveof s) idx 0 n (fun _ => repeat RFILL (N.to_nat n))).
+    change (spec_step w c (liveof s) idx (ORealloc None n)) with (fresh_res w c false (liveof s) idx 0 n (fun _ => repeat RFILL (N.to_nat n))).
     change (realloc_mem fixed) with (realloc_new fixed).
     apply fresh_ok; try assumption.
     + apply realloc_post_none. apply realloc_new_post; assumption.
     + rewrite repeat_length. lia.
   - (* strdup *) apply andb_true_iff in Hv. destruct Hv as [_ Hl]. apply N.ltb_lt in Hl. cbn [step].
     pose proof (cut_nul_length str) as Hcl.
-    change (spec_step c (liveof s) idx (OStrdup str))
-      with (fresh_res c false (liveof s) idx 0 (N.of_nat (length (cut_nul str)) + 1) (fun _ => cut_nul str ++ [0])).
+    change (spec_step w c (liveof s) idx (OStrdup str))
+      with (fresh_res w c false (liveof s) idx 0 (N.of_nat (length (cut_nul str)) + 1) (fun _ => cut_nul str ++ [0])).
     unfold strdup_mem. rewrite strdup_alloc_fixed. unfold strlen.
     assert (Hw : 1 + N.of_nat (length (cut_nul str)) < W) by (rewrite W_val; lia).
     rewrite (wrap_small _ Hw). replace (N.of_nat (length (cut_nul str)) + 1) with (1 + N.of_nat (length (cut_nul str))) by lia.
@@ -459,8 +459,8 @@ Proof.
     apply N.ltb_lt in Hl. apply ltb_W in Hk. cbn [step].
     pose proof (cut_nul_length str) as Hcl.
     set (m := N.min (N.of_nat (length (cut_nul str))) k).
-    change (spec_step c (liveof s) idx (OStrndup str k))
-      with (fresh_res c false (liveof s) idx 0 (m + 1) (fun _ => firstn (N.to_nat m) (cut_nul str) ++ [0])).
+    change (spec_step w c (liveof s) idx (OStrndup str k))
+      with (fresh_res w c false (liveof s) idx 0 (m + 1) (fun _ => firstn (N.to_nat m) (cut_nul str) ++ [0])).
     unfold strndup_mem. rewrite strdup_alloc_fixed. unfold strlen.
     assert (Em : (if N.of_nat (length (cut_nul str)) <? k then N.of_nat (length (cut_nul str)) else k) = m).
     { subst m. destruct (N.ltb_spec (N.of_nat (length (cut_nul str))) k); lia. }
@@ -472,8 +472,8 @@ Proof.
     + apply (alloc_mem_post c f s idx 0 true (m + 1) (fun _ => firstn (N.to_nat m) (cut_nul str) ++ [0]) Hc Hw).
     + rewrite app_length, firstn_length. cbn [length]. lia.
   - (* operator new variants *) apply ltb_W in Hv. cbn [step].
-    change (spec_step c (liveof s) idx (ONew arr throwing n))
-      with (fresh_res c throwing (liveof s) idx (if arr then 2 else 1) n (fun _ => repeat FILL (N.to_nat n))).
+    change (spec_step w c (liveof s) idx (ONew arr throwing n))
+      with (fresh_res w c throwing (liveof s) idx (if arr then 2 else 1) n (fun _ => repeat FILL (N.to_nat n))).
     apply fresh_ok; try assumption.
     + apply (alloc_mem_post c f s idx (if arr then 2 else 1) false n (fun _ => repeat FILL (N.to_nat n))); assumption.
     + rewrite repeat_length. lia.
@@ -501,14 +501,14 @@ Proof.
 Qed.
 
 (* ------------------------------------------------------------------ all histories *)
-Lemma steps_ok c f ops : valid_cfg c = true -> forall s idx, forallb valid_op ops = true -> inv c idx s ->
+Lemma steps_ok w c f ops : valid_cfg c = true -> forall s idx, forallb valid_op ops = true -> inv c idx s ->
   inv c (idx + N.of_nat (length ops)) (fst (steps fixed c f s idx ops)) /\
-  forall e, spec_steps c (liveof s) idx ops (snd (steps fixed c f s idx ops)) e = end_eqb (liveof (fst (steps fixed c f s idx ops))) e.
+  forall e, spec_steps w c (liveof s) idx ops (snd (steps fixed c f s idx ops)) e = end_eqb (liveof (fst (steps fixed c f s idx ops))) e.
 Proof.
   intro Hc. induction ops as [|o r IH]; intros s idx Hv H.
   - cbn [steps fst snd length N.of_nat spec_steps]. rewrite N.add_0_r. split; [exact H|reflexivity].
   - cbn [forallb] in Hv. apply andb_true_iff in Hv. destruct Hv as [Hv Hr].
-    destruct (step_ok c f s idx o Hc Hv H) as [H1 S1].
+    destruct (step_ok w c f s idx o Hc Hv H) as [H1 S1].
     cbn [steps]. destruct (step fixed c f s idx o) as [s1 ob]. cbn [fst snd] in H1, S1.
     destruct (IH s1 (idx + 1) Hr H1) as [H2 S2].
     destruct (steps fixed c f s1 (idx + 1) r) as [s2 obs]. cbn [fst snd] in H2, S2 |- *.
@@ -521,7 +521,7 @@ Qed.
 Lemma history_inv c f ops : valid_cfg c = true -> forallb valid_op ops = true ->
   inv c (N.of_nat (length ops)) (fst (steps fixed c f st0 0 ops)).
 Proof.
-  intros Hc Hv. destruct (steps_ok c f ops Hc st0 0 Hv (inv_st0 c)) as [H _]. rewrite N.add_0_l in H. exact H.
+  intros Hc Hv. destruct (steps_ok false c f ops Hc st0 0 Hv (inv_st0 c)) as [H _]. rewrite N.add_0_l in H. exact H.
 Qed.
 
 Lemma end_eqb_live bs : end_eqb (map proj bs) (map (fun b => (b_id b, digest (b_data b))) bs) = true.
@@ -557,15 +557,16 @@ Qed.
 
 Lemma run_meets_spec : forall sc, valid sc = true -> spec sc (run sc) = true.
 Proof.
-  intros sc Hv. unfold valid in Hv. apply andb_true_iff in Hv. destruct Hv as [Hc Hops].
-  destruct (steps_ok (sc_cfg sc) (sc_fail sc) (sc_ops sc) Hc st0 0 Hops (inv_st0 _)) as [H S].
+  intros sc Hv. unfold valid in Hv. apply andb_true_iff in Hv. destruct Hv as [Hv _].
+  apply andb_true_iff in Hv. destruct Hv as [Hc Hops].
+  destruct (steps_ok (sc_wrap sc) (sc_cfg sc) (sc_fail sc) (sc_ops sc) Hc st0 0 Hops (inv_st0 _)) as [H S].
   unfold run, run_v, spec.
   destruct (steps fixed (sc_cfg sc) (sc_fail sc) st0 0 (sc_ops sc)) as [s os]. cbn [fst snd] in H, S.
   assert (Hiff : forall i, In i (s_table s) <-> In i (map b_id (s_blocks s))).
   { intro i. split; apply Permutation_in; [|apply Permutation_sym]; exact (i_table _ _ _ H). }
   destruct (release_all_ok (s_blocks s) s 0 (i_nodup _ _ _ H) Hiff) as [A B].
   destruct (release_all s (s_blocks s) 0) as [s' rep]. cbn [fst snd] in A, B.
-  cbn [ob_guard ob_ns ob_ops ob_end_live ob_end_total ob_end_rep].
-  rewrite eqb_reflx, N.eqb_refl. change (liveof st0) with (@nil (N * N * list N)) in S. rewrite S.
+  cbn [ob_guard ob_ns ob_wrap ob_ops ob_end_live ob_end_total ob_end_rep].
+  rewrite !eqb_reflx, N.eqb_refl. change (liveof st0) with (@nil (N * N * list N)) in S. rewrite S.
   unfold liveof. rewrite end_eqb_live. unfold total. rewrite A, B. reflexivity.
 Qed.
